@@ -269,7 +269,8 @@ def omission_rule(ctx, rule: str) -> None:
     inits = [n for n in walk_no_nested(fn.node) if isinstance(n, ast.Assign) and unparse(n.targets[0]) == "is_zero" and isinstance(n.value, ast.Constant)]
     ctx.check(rule, len(inits) == 1 and inits[0].value.value is True, "_format_segment_tree: is_zero starts True", "v2version._format_segment_tree: is_zero initial value changed", "", loc=fn.loc())
     res = shapes.single_def(fn, "result")
-    ok = isinstance(res, ast.IfExp) and unparse(res.test) == "is_zero" and isinstance(res.body, ast.Constant) and res.body.value == "" and "join(result_parts)" in unparse(res.orelse)
+    ok = isinstance(res, ast.IfExp) and unparse(res.test) == "is_zero" and isinstance(res.body, ast.Constant) and res.body.value == "" \
+        and isinstance(res.orelse, ast.Call) and isinstance(res.orelse.func, ast.Attribute) and res.orelse.func.attr == "join" and const_str(res.orelse.func.value) == ""
     ctx.check(rule, ok, "_format_segment_tree: an all-zero group renders as the empty string, otherwise all its parts are joined", "v2version._format_segment_tree: omission result changed",
               unparse(res) if res is not None else "", loc=fn.loc())
     app = [c for c in ast.walk(fn.node) if isinstance(c, ast.Call) and unparse(c.func) == "result_parts.append"]
@@ -280,9 +281,30 @@ def omission_rule(ctx, rule: str) -> None:
     ctx.check(rule, bool(app) and tot.drop_unused().project([lit] if lit in tot.atoms else []).is_true(), "_format_segment_tree: every segment's text is kept (literal or not)",
               "v2version._format_segment_tree: some segments are dropped from the rendering", "", loc=fn.loc())
     fs = prog.function("v2version._format_segment")
-    src = unparse(fs.node)
-    ok = "zero_part_count > 0 and zero_part_count == len(used_parts)" in src and "len(used_parts) == 0" in src
-    ctx.check(rule, ok, "_format_segment: literal iff no part; zero iff every used part renders its zero value", "v2version._format_segment: classification of literal/zero segments changed", "", loc=fs.loc())
+    ctx.visit(fs.fq)
+    fg = cfgs.get(fs.fq)
+    fpc = PathCond(fg)
+    kinds = {}
+    for n in fg.nodes:
+        if n.kind == "stmt" and isinstance(n.ast, ast.Return) and isinstance(n.ast.value, ast.Call) and unparse(n.ast.value.func) == "FormatedSeg" and n.id in fg.reachable():
+            a0, a1 = n.ast.value.args[0], n.ast.value.args[1]
+            if isinstance(a0, ast.Constant) and isinstance(a1, ast.Constant):
+                kinds[(a0.value, a1.value)] = kinds.get((a0.value, a1.value), BF.false()) | fpc.reach(n.id)
+    lit_atoms = [a for a in fpc.atoms if a in ("is_literal_seg", "len(used_parts) == 0", "used_parts")]
+    ctx.require(set(kinds) == {(True, False), (False, True), (False, False)} and len(lit_atoms) == 1, "_format_segment: return classification not recognised")
+    L = BF.var(lit_atoms[0]) if lit_atoms[0] != "used_parts" else ~BF.var("used_parts")
+    if lit_atoms[0] == "is_literal_seg":
+        d = shapes.single_def(fs, "is_literal_seg")
+        ctx.check(rule, d is not None and unparse(d) in ("len(used_parts) == 0", "not used_parts"), "_format_segment: literal iff no part occurs in the segment",
+                  "v2version._format_segment: literal classification changed", unparse(d) if d is not None else "", loc=fs.loc())
+    za = [a for a in fpc.atoms if a.replace(" ", "") in ("zero_part_count>0",)]
+    zb = [a for a in fpc.atoms if a.replace(" ", "") in ("zero_part_count==len(used_parts)",)]
+    ctx.require(len(za) == 1 and len(zb) == 1, "_format_segment: zero test atoms not recognised")
+    Z = BF.var(za[0]) & BF.var(zb[0])
+    atoms = [lit_atoms[0], za[0], zb[0]]
+    ok = kinds[(True, False)].project(atoms).equiv(L) and kinds[(False, True)].project(atoms).equiv(~L & Z) and kinds[(False, False)].project(atoms).equiv(~L & ~Z)
+    ctx.check(rule, ok, "_format_segment: literal iff no part; zero iff every used part renders its zero value; otherwise a normal segment",
+              "v2version._format_segment: classification of literal/zero segments changed", f"zero iff {kinds[(False, True)].project(atoms).to_dnf()}", loc=fs.loc())
 
 
 def _parse_defaults(ctx, pv) -> T.Dict[str, T.Any]:
